@@ -684,7 +684,7 @@ func main() {
 		}
 		mcDone <- r
 	}()
-	edgeCfg, nSteps, nRich := "MC_Project_edges_c18.cfg", 22, 6
+	edgeCfg, nSteps, nRich := "MC_Project_edges_c18.cfg", 18, 6
 	pairs := []string{"Query_f1", "T_g"}
 	h := &handler{c: c, variants: variantsQuick}
 	if thorough {
